@@ -438,12 +438,20 @@ def unhex(s):
     return b'' if s == '-' else bytes.fromhex(s)
 
 
-def gen_coq(names):
-    """regenerate coq/gen/<name>.v from /repo's current source; returns list of (name, error)"""
-    import cxx2v, gen_specs, importlib
+def repo_incs():
+    return [REPO, REPO + '/booster', BUILD, BUILD + '/booster', REPO + '/private']
+
+
+def gen_coq(specs):
+    """regenerate coq/gen/<name>.v from /repo's current source. specs: dict name -> cxx2v spec
+    (src relative to /repo, incs default to the library include path). Returns [(name, error)]."""
+    import cxx2v
     errs = []
-    for n in names:
-        spec = dict(gen_specs.SPECS[n])
+    for n, spec in specs.items():
+        spec = dict(spec)
+        if not os.path.isabs(spec['src']):
+            spec['src'] = os.path.join(REPO, spec['src'])
+        spec.setdefault('incs', repo_incs())
         out = os.path.join(COQ, 'gen', n + '.v')
         try:
             with Lock('gen-' + n):
@@ -451,7 +459,7 @@ def gen_coq(names):
         except cxx2v.Unsupported as e:
             errs.append((n, str(e)))
             # leave a file that does not compile so that dependants fail loudly
-            write_if_changed(out, '(* translator failed: %s *)\nFail Fail Definition broken := broken.\n' % str(e).replace('*)', '* )').replace('"', "'"))
+            write_if_changed(out, '(* translator failed: %s *)\nDefinition broken : False := I.\n' % str(e).replace('*)', '* )').replace('"', "'"))
     return errs
 
 
